@@ -1,18 +1,23 @@
 (* Hand-written model of spatialmath.base.quaternions.r2q (rotation matrix -> unit quaternion), branch for
-   branch as in the source (lines 473-538 of base/quaternions.py, 0.8.9):
+   branch and operation for operation as in the source after /repo commit 1cdf860 (base/quaternions.py r2q):
 
      qs = math.sqrt(max(0, np.trace(R) + 1)) / 2.0
-     kx = R[2,1] - R[1,2]; ky = R[0,2] - R[2,0]; kz = R[1,0] - R[0,1]
+     kx = R[2,1] - R[1,2]; ky = R[0,2] - R[2,0]; kz = R[1,0] - R[0,1];  k = [kx, ky, kz]      # skew part = 4 s v
+     if np.trace(R) > 0:                       # scalar part well conditioned: vector part from it, scalar part from the vector part
+         v = k / (4.0 * qs)
+         return [math.sqrt(max(0, 1.0 - np.dot(v, v))), v]
      if (R[0,0] >= R[1,1]) and (R[0,0] >= R[2,2]):  kx1 = R00 - R11 - R22 + 1; ky1 = R10 + R01; kz1 = R20 + R02; add = (kx >= 0)
      elif R[1,1] >= R[2,2]:                         kx1 = R10 + R01; ky1 = R11 - R00 - R22 + 1; kz1 = R21 + R12; add = (ky >= 0)
      else:                                          kx1 = R20 + R02; ky1 = R21 + R12; kz1 = R22 - R00 - R11 + 1; add = (kz >= 0)
-     if add: k = k + k1  else: k = k - k1
-     nm = norm(k)
+     if add: kv = k + k1  else: kv = k - k1
+     nm = norm(kv)
      if abs(nm) < tol * _eps: return eye()
-     else: return [qs, (math.sqrt(1.0 - qs ** 2) / nm) * k]
+     else:
+         v = (math.sqrt(1.0 - qs ** 2) / nm) * kv
+         return [max(0, np.dot(k, v) / (4.0 * np.dot(v, v))), v]
 
    Tied to the implementation on every run by the numeric correspondence (Gen.model in props/C04.py),
-   on rotations of every branch including those within 1e-9 of 0 and of pi. *)
+   on rotations of every branch including those within 1e-9 of 0 and of pi and on both sides of trace = 0. *)
 From Coq Require Import ZArith Bool.
 From SM Require Import Base.Ops Base.Lin.
 
@@ -57,13 +62,30 @@ Definition r2q_s (R : M33 T) : T :=
 Definition r2q_degenerate (tol : T) (R : M33 T) : bool :=
   ltb O (abs_ O (norm3 O (r2q_kv R))) (tol * eps O).
 
+(* Python's max(0, x): x if x > 0 else 0 *)
+Definition max0 (x : T) : T := if ltb O 0 x then x else 0.
+
+(* the skew part k *)
+Definition r2q_k (R : M33 T) : V3 T :=
+  let '((r00,r01,r02),(r10,r11,r12),(r20,r21,r22)) := R in (r21 - r12, r02 - r20, r10 - r01).
+
+(* np.trace(R) > 0 *)
+Definition r2q_trpos (R : M33 T) : bool :=
+  let '((r00,_,_),(_,r11,_),(_,_,r22)) := R in ltb O 0 (r00 + r11 + r22).
+
 Definition r2q (tol : T) (R : M33 T) : V4 T :=
-  if r2q_degenerate tol R then qone O
+  let qs := r2q_s R in
+  let '(kx, ky, kz) := r2q_k R in
+  if r2q_trpos R then
+    let d := of_Z O 4 * qs in
+    let vx := kx / d in let vy := ky / d in let vz := kz / d in
+    (sqrt_ O (max0 (1 - (vx * vx + vy * vy + vz * vz))), vx, vy, vz)
+  else if r2q_degenerate tol R then qone O
   else
-    let qs := r2q_s R in
-    let '(kx, ky, kz) := r2q_kv R in
+    let '(ax, ay, az) := r2q_kv R in
     let f := sqrt_ O (1 - qs * qs) / norm3 O (r2q_kv R) in
-    (qs, f * kx, f * ky, f * kz).
+    let vx := f * ax in let vy := f * ay in let vz := f * az in
+    (max0 ((kx * vx + ky * vy + kz * vz) / (of_Z O 4 * (vx * vx + vy * vy + vz * vz))), vx, vy, vz).
 
 Definition r2q_100 (R : M33 T) : V4 T := r2q (of_Z O 100) R.
 
@@ -78,4 +100,4 @@ Definition udq_of_T (A : M44 T) : V8 T :=
   let '(r0,r1,r2,r3) := r in (r0,r1,r2,r3,d0,d1,d2,d3).
 End R2q.
 
-#[export] Hint Unfold r2q_branch r2q_add r2q_kv r2q_s r2q_degenerate r2q r2q_100 qunit udq_of_T : smlin.
+#[export] Hint Unfold r2q_branch r2q_add r2q_kv r2q_s r2q_degenerate max0 r2q_k r2q_trpos r2q r2q_100 qunit udq_of_T : smlin.
